@@ -923,15 +923,21 @@ def builder_stage(tier):
     real = [json.loads(l) for l in r.stdout.splitlines() if l.startswith("{")]
     if len(real) != len(hs):
         raise ToolError("builder replay returned %d results for %d histories (rc=%s)" % (len(real), len(hs), r.returncode))
-    recs = [{"spec": {"nodes": h["nodes"], "tc": h["tc"], "nsl": h["nsl"]},
-             "real": {"nodes": x["nodes"], "tc": x["tc"], "nsl": x["nsl"], "panic": x["panic"]}} for h, x in zip(hs, real)]
+    recs = [{"spec": {"nodes": h["nodes"], "tc": h["tc"], "nsl": h["nsl"], "tree": h["tree"]},
+             "real": {"nodes": x["nodes"], "tc": x["tc"], "nsl": x["nsl"], "panic": x["panic"], "tree": x["tree"]}}
+            for h, x in zip(hs, real)]
     import copy
-    st = copy.deepcopy(recs[len(recs) // 2])
-    st["real"]["nsl"] += 1
+    st = None
+    for r in recs[len(recs) // 2:]:
+        if len(r["real"]["tree"]) == 3 and len(r["real"]["tree"][2]) >= 2:
+            st = copy.deepcopy(r)
+            st["real"]["tree"][2] = st["real"]["tree"][2][1:]
+            break
     recs.append(st)
     nshard = 4
     out = {"histories": len(hs), "model_states": mc.distinct, "model_transitions": mc.generated,
-           "f03_protocol_violation_found_by_tlc": f03.violated == "Refines", "judge_states": 0, "failures": []}
+           "f03_protocol_violation_found_by_tlc": f03.violated == "Refines", "judge_states": 0, "failures": [],
+           "vector_drift": 0}
 
     def shard(k):
         part = recs[k::nshard]
@@ -945,6 +951,7 @@ def builder_stage(tier):
             log(jr.raw[-1500:])
             raise ToolError("builder judge failed: %s" % jr.error)
         out["judge_states"] += jr.distinct
+        out["vector_drift"] += len([x for x in jr.payload("DRIFT") if x])
         for v in jr.payload("V"):
             if not v:
                 continue
